@@ -200,5 +200,5 @@ package req
 // ---- round 9 (C03): a request that is only queued is not yet eligible for replies: the id is entered
 // into the lookup table by send(), at the moment of the first transmission, never by SendMsg itself ----
 //@ func (*context).SendMsg
-//@   before call:send#1 assert s.ctxByID == at("call:cancelSend#1", s.ctxByID)
-//@   before call:send#2 assert s.ctxByID == at("call:cancelSend#1", s.ctxByID)
+//@   before call:send#1 assert unchanged("call:cancelSend#1", s.ctxByID)
+//@   before call:send#2 assert unchanged("call:cancelSend#1", s.ctxByID)
